@@ -77,6 +77,8 @@ def draw_recording(rng, idx, fmt=None):
             s["codes"] = {"N": b + "N", "E": b + "E", "Z": b + "Z"}
         if rng.random() < 0.3:
             s["peer_short"] = {"comp": rng.choice(["N", "E", "Z"]), "by": rng.randint(1, 20)}
+    if fmt in F.TEXT and rng.random() < 0.2:
+        s["trailing_blank"] = rng.choice([1, 2])
     s["dfn"] = rng.choice([None, None, 0.0, 33.5, 400.0, -15.0])
     return s
 
@@ -87,6 +89,8 @@ def draw_fault(rng, rec):
              "garbage", "empty", "eio_read", "lost_write"]
     if fmt in F.TEXT:
         kinds += ["eol_strip_final", "header_count", "header_count"]
+    if fmt in ("saf", "minishark"):
+        kinds += ["move_token", "move_token"]
     else:
         kinds = [k for k in kinds if k != "header_count"]
     if fmt in ("minishark",):
@@ -197,6 +201,24 @@ def apply_fault(ctx, f, rec, files, rng_seed):
             files[fi][1] = data[:k] + data[k + 512:]
         ctx.fault("drop")
         return "may_raise"
+    if kind == "move_token":
+        # one row loses a value, a later row gains it: the total number of values is unchanged
+        lines = data.split(b"\n")
+        sepc = b" " if fmt == "saf" else b"\t"
+        idx = [i for i, l in enumerate(lines) if l and l[:1] in b"-0123456789" and l.count(sepc) == 2]
+        if len(idx) < 8:
+            return None
+        a = idx[int(f["frac"] * (len(idx) - 4))]
+        b = idx[min(len(idx) - 1, idx.index(a) + 1 + abs(f["k"]))]
+        pa = lines[a].split(sepc)
+        tok = pa.pop(g.randrange(3))
+        lines[a] = sepc.join(pa)
+        pb = lines[b].split(sepc)
+        pb.insert(g.randrange(4), tok)
+        lines[b] = sepc.join(pb)
+        files[fi][1] = b"\n".join(lines)
+        ctx.fault("move_token")
+        return "may_raise"
     if kind == "header_count":
         txt = data.decode("latin-1")
         import re
@@ -255,6 +277,8 @@ def build_disk(ctx, st, world, faults):
             expect_class = "may_raise"
             ctx.fault("saf_nonstandard_layout")
         files = [[n, b] for n, b in files]
+        if rec.get("trailing_blank") and rec["fmt"] in F.TEXT:
+            files = [[n, b + b"\n" * rec["trailing_blank"]] for n, b in files]       # still an intact file
         if rec.get("eol") == "crlf":
             files = [[n, b.replace(b"\n", b"\r\n")] for n, b in files]
         for f in fl:
@@ -482,6 +506,32 @@ def judge_outcome(ctx, st, entry, got, exc, dfn, what, key):
                   f"{what}: surviving bytes of the {rec['fmt']} recording hold a missing/duplicate component or unequal "
                   f"lengths, yet a recording was returned", key=key)
     if dec == "undecodable":
+        structural = set(key.get("fault", "").split("+")) <= {"move_token", "drop", "torn", "eol_strip_final"}
+        # (only for damage that moves or removes whole characters: after a flipped byte the lenient
+        #  readers may legitimately parse a different number out of the damaged row)
+        if rec["fmt"] in ("saf", "minishark") and len(entry["paths"]) == 1 and structural:
+            sc = F.scan_rows(rec["fmt"], st.fs.read_bytes(entry["paths"][0]))
+            if sc is not None:
+                # whatever else is wrong with the file, a recording may only be made of the file's
+                # well-formed rows, in order, and their number must be the one the header announces
+                cand = [sc["rows"]]
+                if sc["tail_row"] is not None:
+                    cand.append(np.vstack([sc["rows"], np.array([sc["tail_row"]], dtype=np.int64)]))
+                scale = 1.0
+                if rec["fmt"] == "minishark":
+                    scale = 1.0 / rec.get("gain", 1) / rec.get("conv", 1)
+                g3 = np.vstack([got.vt.amplitude, got.ns.amplitude, got.ew.amplitude]).T
+                ok = False
+                for c in cand:
+                    if len(c) == sc["n"] and c.shape == g3.shape and \
+                            close(g3, c.astype(np.float32).astype(float) * scale, 1e-6, 0.0):
+                        ok = True
+                ctx.check(ok, "damaged_file_accepted",
+                          lambda: f"{what}: the damaged {rec['fmt']} file announces {sc['n']} samples and holds {len(sc['rows'])} well-formed "
+                                  f"rows (+{1 if sc['tail_row'] is not None else 0} unterminated, {sc['junk']} malformed), yet a recording of "
+                                  f"{len(got.vt.amplitude)} samples was returned that is not made of those rows", key=key)
+                ctx.probe("damaged_rows_judged")
+                return
         ctx.probe("lenient_accept_of_undecodable_file")
         return
     compare(ctx, got, dec, dfn, what + " (damaged, vs independent decode)", key, entry["paths"])
